@@ -15,6 +15,23 @@ CLAIMED = {
         "Trusts swiglpk's glp_get_* read-back and the harness' bookkeeping of explicitly added user constraints/variables.",
         "DESIGN.md section 4 (C01)",
     ),
+    "C02": (
+        "model-based stateful PBT: generated edit histories vs executable reference of the documented semantics",
+        "Exploration: generated edit histories with all documented argument shapes, compared after every step with a "
+        "dictionary reference model of the documentation (content, expected ok/raise outcome, unchanged state after a "
+        "documented raise) plus a cross-reference audit.",
+        "Trusts vfw/refmodel.py as a faithful transcription of the docstrings (choices where they are silent are "
+        "commented there and derived from the statement of C02).",
+        "DESIGN.md section 4 (C02)",
+    ),
+    "C12": (
+        "stateful PBT: copy at a generated point of a history, then edits on either side with other-side snapshot invariance",
+        "Exploration: generated models and pre-histories (incl. open contexts), copies by copy()/deepcopy/pickle, "
+        "generated edits (incl. in-place edits of nested mutables) on either side; equivalence at copy time and "
+        "non-interference afterwards checked on the full observable state incl. raw GLPK.",
+        "Trusts the snapshot/diff code; aliasing is only detected through attributes that the snapshot reads.",
+        "DESIGN.md section 4 (C12)",
+    ),
     "C03": (
         "stateful PBT: generated context blocks (nesting, faults), snapshot-at-enter == snapshot-after-exit oracle",
         "Exploration: generated histories with nested with-model blocks containing documented-reversible operations "
